@@ -477,4 +477,79 @@ def r16_11(ctx: Ctx) -> RuleResult:
     return rr
 
 
-RULES = [r16_1, r16_2, r16_3, r16_4, r16_5, r16_6, r16_7, r16_8, r16_9, r16_10, r16_11]
+#: (base pointer, relative pointer, tokens of the result or None where the draft forbids the application)
+RELATIVE_SAMPLES = (
+    ("/a/b", "0", ["a", "b"]), ("/a/b", "1", ["a"]), ("/a/b", "2", []), ("/a/b", "3", None), ("", "0", []), ("", "1", None),
+    ("/a/b", "1/c", ["a", "c"]), ("/a/b", "0/c/d", ["a", "b", "c", "d"]), ("/a/b", "2/x~1y", ["x/y"]), ("/a/b", "0/m~0n", ["a", "b", "m~n"]), ("", "0/x", ["x"]),
+    ("/a/b", "1/", ["a", ""]), ("/a/b", "0/\u00e9", ["a", "b", "\u00e9"]),
+    ("/a/1", "0+1", ["a", "2"]), ("/a/1", "0-1", ["a", "0"]), ("/a/1", "0-2", None), ("/a/10", "0+15", ["a", "25"]), ("/a/2/c", "1-2", ["a", "0"]),
+    ("/a/2/c", "1+1/d", ["a", "3", "d"]), ("/7", "0+100000000000", ["100000000007"]),
+    ("/a/b", "0#", ["a", "#b"]), ("/a/3", "1#", ["#a"]), ("/a/3", "0#", ["a", "#3"]), ("", "0#", None), ("/a/b", "2#", None), ("/a/3/x", "1+2#", ["a", "#5"]),
+)
+RELATIVE_TEXTS = ("0", "1", "10", "0/a", "2/a~1b/c~0d", "0#", "3#", "1+2/x", "3-1#", "0/", "1/\u00e9", "0/a b", "10/0/1", "0+12345678901234567890/x", "1/~01")
+
+
+def r16_12(ctx: Ctx) -> RuleResult:
+    """The behaviour itself on covering samples, by abstract execution (rules/model.py) of the constructors, of
+    `RelativeJSONPointer.__str__` and of `JSONPointer.to`: printing a parsed relative pointer gives back its text; and
+    applying a relative pointer to a base gives the tokens the draft defines - trailing tokens removed, the offset
+    added to a final index, the suffix appended or the key marker set - or is refused with a relative-pointer error
+    where the draft forbids it (too many steps, an index below zero, `#` at the root)."""
+    from sa.peval import UNKNOWN
+
+    from .model import RAISES
+    from .model import MObj
+    from .model import Model
+    from .model import _ConstructorRaises
+
+    rr = RuleResult("R16.12", "relative pointers print as written and apply as the draft defines, on covering samples", floor=len(RELATIVE_SAMPLES) + len(RELATIVE_TEXTS))
+    rel_cls = ctx.repo.require_class("jsonpath.pointer.RelativeJSONPointer")
+    s_fn = ctx.repo.find_method(rel_cls, "__str__")
+    to_fn = ctx.repo.find_method(rel_cls, "to")
+    if s_fn is None or to_fn is None:
+        raise AnalysisError("R16.12: RelativeJSONPointer.__str__ / to not found")
+    for text in RELATIVE_TEXTS:
+        model = Model(ctx, "R16.12")
+        model.whole_bodies = model.auto_construct = True
+        try:
+            obj = model.new("jsonpath.pointer.RelativeJSONPointer", text)
+        except _ConstructorRaises:
+            rr.bad(to_fn, to_fn.node, f"the relative pointer {text!r} is refused", construct=f"RelativeJSONPointer({text!r}) raises")
+            continue
+        got = model.call(obj, "__str__", [])
+        if got is UNKNOWN or got is RAISES or not isinstance(got, str):
+            raise AnalysisError(f"R16.12: the text of the parsed relative pointer {text!r} cannot be determined")
+        if got == text:
+            rr.ok(s_fn.loc(), f"str(RelativeJSONPointer({text!r})) == {text!r}")
+        else:
+            rr.bad(s_fn, s_fn.node, f"the relative pointer {text!r} prints as {got!r}", construct=f"str(RelativeJSONPointer({text!r})) == {got!r}")
+    for base, rel, want in RELATIVE_SAMPLES:
+        model = Model(ctx, "R16.12")
+        model.whole_bodies = model.auto_construct = True
+        try:
+            b = model.new("jsonpath.pointer.JSONPointer", base)
+        except _ConstructorRaises:
+            raise AnalysisError(f"R16.12: the base pointer {base!r} is refused") from None
+        r = model.call(b, "to", [rel])
+        shown = f"JSONPointer({base!r}).to({rel!r})"
+        if r is RAISES:
+            if want is None:
+                rr.ok(to_fn.loc(), f"{shown} is refused")
+            else:
+                rr.bad(to_fn, to_fn.node, f"{shown} is refused; the draft defines the result {want}", construct=f"{shown} raises")
+            continue
+        parts = r.fields.get("parts", UNKNOWN) if isinstance(r, MObj) else UNKNOWN
+        if parts is UNKNOWN or not isinstance(parts, (tuple, list)) or any(not isinstance(x, (str, int)) or isinstance(x, bool) for x in parts):
+            raise AnalysisError(f"R16.12: the result of {shown} cannot be determined")
+        tokens = [str(x) for x in parts]
+        if want is None:
+            rr.bad(to_fn, to_fn.node, f"{shown} gives the tokens {tokens}; the draft forbids this application (too many steps, an index below zero, or `#` at the root)",
+                   construct=f"{shown} -> {tokens} instead of an error")
+        elif tokens == want:
+            rr.ok(to_fn.loc(), f"{shown} -> {tokens}")
+        else:
+            rr.bad(to_fn, to_fn.node, f"{shown} gives the tokens {tokens}; the draft defines {want}", construct=f"{shown} -> {tokens} instead of {want}")
+    return rr
+
+
+RULES = [r16_1, r16_2, r16_3, r16_4, r16_5, r16_6, r16_7, r16_8, r16_9, r16_10, r16_11, r16_12]
